@@ -231,7 +231,9 @@ pub fn run(prop: PathProp, tier: Tier, seed: u64) -> i32 {
         _ => tier.pick(16_000, 1_500_000),
     };
     let hs = hosts(prop);
-    let opts = GenOpts { nonconvex: prop == PathProp::C04, ..GenOpts::default() };
+    // non-convex angular bounds matter for C04 (known finding K-1); the other path properties
+    // must hold there too, so C03 and C05 explore them as well
+    let opts = GenOpts { nonconvex: matches!(prop, PathProp::C04 | PathProp::C03 | PathProp::C05), ..GenOpts::default() };
     let shards = 64.min(n_cases);
     par_shards(shards, crate::util::n_threads(), |sh| {
         let mut b = Batch::default();
